@@ -532,6 +532,26 @@ func monC14(c *child.Ctx, replay json.RawMessage) {
 			}
 			syscall.Munmap(mem)
 		}
+		// the extractions package utils made while it was still initialising its own
+		// variables (an overlay file of the check, see vhook_src/utils_init_probe.go.src)
+		if c.Batch == 0 {
+			for _, pr := range utils.VerifInitProbes {
+				k := bitsCase{Buf: hexs(utils.VerifProbeBuf), Pos: pr.Pos, Width: pr.Width, Signed: pr.Signed}
+				cj, _ := json.Marshal(k)
+				var want, got *big.Int
+				if pr.Signed {
+					want, got = ref.BitsBigSigned(utils.VerifProbeBuf, pr.Pos, pr.Width), big.NewInt(pr.I)
+				} else {
+					want, got = ref.BitsBig(utils.VerifProbeBuf, pr.Pos, pr.Width), new(big.Int).SetUint64(pr.U)
+				}
+				if pr.Panicked {
+					c.Violate("crash", "extraction of "+mk2(pr.Pos, pr.Width, pr.Signed)+" panicked when it was called while package utils was initialising its variables", cj)
+				} else if got.Cmp(want) != 0 {
+					c.Violate("wrong-value", "extraction of "+mk2(pr.Pos, pr.Width, pr.Signed)+" made while package utils was initialising its variables (before its init functions) returned "+got.String()+", the addressed bits are "+want.String(), cj)
+				}
+				c.Count("extractions_during_package_initialisation", 1)
+			}
+		}
 		// a buffer that ends where accessible memory ends (a mapped file, a buffer handed
 		// over by C code): the page behind it is inaccessible, so a load that reaches
 		// past the last byte of the buffer faults even if the extra bits are masked away
@@ -561,6 +581,35 @@ func monC14(c *child.Ctx, replay json.RawMessage) {
 									c.Violate("wrong-value", "extraction of "+mk2(pos, width, signed)+" from a buffer that ends at the end of accessible memory returned "+got.String()+", the addressed bits are "+want.String(), cj)
 								}
 								c.Count("extractions_at_the_end_of_accessible_memory", 1)
+							}
+						}
+					}
+				}
+				// and a buffer that goes on into inaccessible memory, the field lying wholly
+				// in front of it: only the bytes that hold bits of the field may be touched
+				for n := 1; n <= 24; n++ {
+					reach := mem[4096-n : 4096+16 : 4096+16]
+					for width := uint(1); width <= 64 && int(width) <= n*8; width++ {
+						for _, pos := range []uint{uint(n*8) - width, uint(n*8) - width - uint(r.Intn(8)), 0} {
+							if int(pos) < 0 || int(pos+width) > n*8 {
+								continue
+							}
+							for _, signed := range []bool{false, true} {
+								if signed && width < 2 {
+									continue
+								}
+								k := bitsCase{Buf: hexs(reach[:n]) + "(followed by 16 inaccessible bytes of the same slice)", Pos: pos, Width: width, Signed: signed}
+								cj := c.BeginV(k)
+								var want, got *big.Int
+								if signed {
+									want, got = ref.BitsBigSigned(reach[:n], pos, width), big.NewInt(utils.GetBitsAsInt64(reach, pos, width))
+								} else {
+									want, got = ref.BitsBig(reach[:n], pos, width), new(big.Int).SetUint64(utils.GetBitsAsUint64(reach, pos, width))
+								}
+								if got.Cmp(want) != 0 {
+									c.Violate("wrong-value", "extraction of "+mk2(pos, width, signed)+" from a buffer whose later bytes are inaccessible returned "+got.String()+", the addressed bits are "+want.String(), cj)
+								}
+								c.Count("extractions_in_front_of_inaccessible_bytes", 1)
 							}
 						}
 					}
